@@ -3583,7 +3583,10 @@ public:
     {
         auto begin = data_unchecked();
         const auto new_end = std::copy(first, last, begin);
-        resize(new_end - begin, default_init);
+        SBEPP_ASSERT(
+            static_cast<std::size_t>(new_end - begin)
+            <= (std::numeric_limits<size_type>::max)());
+        resize(static_cast<size_type>(new_end - begin), default_init);
     }
 
     //! @brief Replaces the contents of the container with the elements from
@@ -3630,7 +3633,8 @@ public:
     {
         SBEPP_ASSERT(str != nullptr);
         const auto length = string_length(str);
-        resize(length, default_init);
+        SBEPP_ASSERT(length <= (std::numeric_limits<size_type>::max)());
+        resize(static_cast<size_type>(length), default_init);
         std::copy_n(str, length, begin());
     }
 
@@ -3653,7 +3657,10 @@ public:
 #else
         const auto new_end = std::copy(std::begin(r), std::end(r), begin);
 #endif
-        resize(new_end - begin, default_init);
+        SBEPP_ASSERT(
+            static_cast<std::size_t>(new_end - begin)
+            <= (std::numeric_limits<size_type>::max)());
+        resize(static_cast<size_type>(new_end - begin), default_init);
     }
 
 private:
